@@ -41,3 +41,8 @@ RULE = RULE + (" Round 9: 30% of mask histories derive a second RFIMask in mid-h
 # dimensions added in seeded round 10
 PROBES = list(PROBES) + ["ranges-given-as:tuple", "ranges-given-as:ndarray", "ranges-given-as:zip", "ranges-given-as:generator", "ranges-given-as:map"]
 RULE = RULE + " Round 10: the frequency ranges are handed over as a list, a tuple, an (n,2) array, or a one-shot iterable (zip / generator / map); a range end on a channel centre keeps the list form (margin rule: float64 array elements and Python floats are compared at different precisions)."
+
+
+# every child process of this property (workers, the determinism worker, replays, warm-up) may use up to 4 numba threads;
+# a scenario runs on 1 unless it says otherwise ("numba_threads", see sim.core._set_numba_threads)
+CHILD_ENV = {"NUMBA_NUM_THREADS": "4"}
